@@ -1,3 +1,3 @@
 SPECIFICATION Spec
-INVARIANT HitsExactTolerant
+INVARIANT HitsExactEither
 CHECK_DEADLOCK FALSE
